@@ -138,8 +138,16 @@ def run (args : List String) : Option String :=
     let mx : Option Int ← if mx == "fail" then some none else do some (some (← parseInt? mx))
     let fd : Option Funded ← if fins == "fail" then some none else do
       some (some ⟨← parseIns? fins, ← parseOuts? fouts, ← parseInt? fci⟩)
-    some (fmtResult a.outPoint.hash (deposit (← parseTable? tbl) a (← parseInt? amt) (← parseInt? rate)
-      (← parseU32? best) (← parseU32? eh) (← nv.toNat?) mx fd (← parseFaults? fl)))
+    let so ← parseTable? tbl
+    let amt ← parseInt? amt
+    let rate ← parseInt? rate
+    let best ← parseU32? best
+    let eh ← parseU32? eh
+    let nv ← nv.toNat?
+    let fl ← parseFaults? fl
+    let lk := match depositLocks so a amt rate best eh nv mx fd fl with
+      | .none => "none" | .held n => s!"held:{n}" | .released n => s!"released:{n}"
+    some (fmtResult a.outPoint.hash (deposit so a amt rate best eh nv mx fd fl) ++ " locks=" ++ lk)
   | _ => none
 
 def drvStep (s : DrvSt) (args : List String) : DrvSt × String :=
